@@ -3,7 +3,8 @@ sorter returns a permutation of its input.
 
 M: TLC explores spec/HDC.tla from every region mask on small 2-D / 3-D grids (boundary by
    definition vs by erosion, components, coordinate sets) and spec/LineSort.tla (2-nearest-
-   neighbour graph + DFS preorder) for every unambiguous 6-point subset of a lattice; the
+   neighbour graph + DFS preorder) for every unambiguous 6-point subset of a 4x4 lattice
+   (thorough: 7-point subsets, and 6-point subsets of a 5x5 lattice from node 0); the
    4-neighbourhood mutation must violate CoordsAreBoundary, and the pinned sorter
    (Continue = FALSE) must violate IsPermutation.
 R: TLC-enumerated configuration classes (spec/HDCGen.tla) instantiated on the real code.
@@ -179,12 +180,16 @@ def run(ctx):
     ]
     # M
     for cfg in ctx.pick(("MC_HDC_mask33.cfg", "MC_HDC_mask34.cfg", "MC_HDC_mask222.cfg"),
-                        ("MC_HDC_mask33.cfg", "MC_HDC_mask34.cfg", "MC_HDC_mask222.cfg", "MC_HDC_mask44.cfg",
-                         "MC_HDC_mask322.cfg")):
+                        ("MC_HDC_mask33.cfg", "MC_HDC_mask34.cfg", "MC_HDC_mask222.cfg", "MC_HDC_mask322.cfg")):
         ctx.model_check("HDC", cfg, must_cover=("Erode", "Label"), timeout=3000)
+    if not ctx.quick:
+        ctx.model_check("HDC", "MC_HDC_mask44.cfg", timeout=3000)       # 65 536 masks, no coverage statistics
     ctx.model_check("HDC", "MC_HDC_mut_cross.cfg", expect_violation="CoordsAreBoundary")
-    ctx.model_check("LineSort", ctx.pick("MC_LineSort_quick.cfg", "MC_LineSort_thorough.cfg"),
-                    must_cover=("Build", "Visit", "Exhausted"), timeout=3000)
+    ctx.model_check("LineSort", "MC_LineSort_quick.cfg", must_cover=("Build", "Visit", "Exhausted"), timeout=3000)
+    if not ctx.quick:
+        ctx.model_check("LineSort", "MC_LineSort_thorough7.cfg", must_cover=("Build", "Visit", "Exhausted"),
+                        timeout=3000)
+        ctx.model_check("LineSort", "MC_LineSort_thorough.cfg", timeout=3000)   # 5 x 5 lattice, start at node 0
     ctx.model_check("LineSort", "MC_LineSort_pinned.cfg", expect_violation="IsPermutation")
     # R
     cfgs = ctx.generate("HDCGen", "Gen_HDC.cfg")
